@@ -1,15 +1,18 @@
 CONSTANTS
+  NParts = 32
+  Part = 0
   NConns = 3
   NUp = 0
   NDown = 0
   MaxTemp = 2
   MaxPerm = 1
   Fields <-F8
-  ArgChoices <-ArgsAll
+  ArgChoices <-ArgsPart
   WithMain = FALSE
   StdinClose = FALSE
   Mode = "socks"
   DialFails = FALSE
+  SfScripted = FALSE
   EnvLite = TRUE
   AsIs_Spin = FALSE
   AsIs_SharedConfig = FALSE
